@@ -31,9 +31,9 @@ func (c08) Probes() []string {
 }
 func (c08) Runs(tier string) int {
 	if tier == "thorough" {
-		return 4000
+		return 20000
 	}
-	return 160
+	return 2400
 }
 
 func (p c08) Run(runseed uint64, tier string, acc *Acc) []*core.Violation {
